@@ -433,6 +433,75 @@ Proof. admt. intros H. rewrite clamp_x_pinf. exact H. Qed.
 Lemma corr_clamp_ninf x : close tol x lo -> close tol x (clamp_x lo hi NInf).
 Proof. admt. intros H. exact H. Qed.
 
+(* ====================================================================== *)
+(* Part 2b: the driver on a whole simulated roboRIO (rails, battery ...)  *)
+(* ====================================================================== *)
+
+Lemma reading_x_total v :
+  reading_x_opt c e lo hi fl v = Some (reading_x c e lo hi fl v).
+Proof.
+  adm. destruct v; cbn [reading_x_opt reading_x];
+    [apply reading_total | reflexivity | apply reading_total].
+Qed.
+
+(* no exception and the value of the pin-only model, whatever the rails,
+   the battery, the enable flags and the rest are *)
+Lemma rio_total r :
+  rio_distance_opt c e lo hi fl r = Some (reading_x c e lo hi fl (pin r)).
+Proof. adm. unfold rio_distance_opt. apply reading_x_total. Qed.
+
+(* the outcome (value or exception) is a function of the pin voltage alone *)
+Lemma rio_pin_only r1 r2 :
+  pin r1 = pin r2 ->
+  rio_distance_opt c e lo hi fl r1 = rio_distance_opt c e lo hi fl r2.
+Proof. adm. unfold rio_distance_opt. intros E. rewrite E. reflexivity. Qed.
+
+Lemma rio_in_range r :
+  exists x, rio_distance_opt c e lo hi fl r = Some x /\ lo <= x <= hi.
+Proof. adm. eexists. split; [apply rio_total | apply in_range_x]. Qed.
+
+Lemma rio_antitone r1 r2 :
+  xle (pin r1) (pin r2) ->
+  rio_distance c e lo hi fl r2 <= rio_distance c e lo hi fl r1.
+Proof. adm. unfold rio_distance. apply antitone_x. Qed.
+
+Lemma rio_power_law r v :
+  pin r = Fin v -> fl <= v -> lo <= c * Rpower v e <= hi ->
+  rio_distance_opt c e lo hi fl r = Some (c * Rpower v e).
+Proof.
+  adm. intros E Hv H. rewrite rio_total, E. cbn [reading_x]. f_equal.
+  apply power_law_inside; assumption.
+Qed.
+
+Lemma rio_set_pin_frame r v : pin (rio_set_pin r v) = v /\ same_rails (rio_set_pin r v) r.
+Proof. adm. unfold same_rails. cbn. repeat split; reflexivity. Qed.
+
+(* the helper on any roboRIO: the sensor reads d clamped, the rails are not
+   touched *)
+Lemma rio_sim r d :
+  fl <= volts c e lo hi hi ->
+  rio_distance_opt c e lo hi fl (rio_set_distance c e lo hi r d) = Some (clamp_x lo hi d) /\
+  same_rails (rio_set_distance c e lo hi r d) r.
+Proof.
+  adm. intros Hf. split.
+  - rewrite rio_total. unfold rio_set_distance. cbn [rio_set_pin pin reading_x].
+    f_equal. apply sim_inverse_x. exact Hf.
+  - apply rio_set_pin_frame.
+Qed.
+
+(* correspondence: a sample taken on roboRIO [r] whose pin carries v *)
+Lemma rio_reads_fin r v x :
+  pin r = Fin v -> close tol x (reading c e lo hi fl v) ->
+  rio_reads c e lo hi fl tol r x.
+Proof.
+  admt. intros E H. unfold rio_reads. rewrite rio_total, E. exact H.
+Qed.
+
+Lemma rio_reads_x r v x :
+  pin r = v -> x = reading_x c e lo hi fl v ->
+  rio_distance_opt c e lo hi fl r = Some x.
+Proof. adm. intros E H. rewrite rio_total, E, H. reflexivity. Qed.
+
 End Generic.
 
 (* a closed inequality between rationals: |x - y| <= tol * y *)
@@ -835,3 +904,21 @@ Definition A41_q_volts_lo := q_volts_lo _ _ _ _ _ A41_admissible _ ctol_ok _ _ A
 Definition A41_q_clamp_mid := q_clamp_mid _ _ _ _ _ A41_admissible _ ctol_ok _ _ _ _ _ _ A41_lo_fr A41_hi_fr ctol_fr.
 Definition A41_q_clamp_hi := q_clamp_hi _ _ _ _ _ A41_admissible _ ctol_ok _ _ _ _ A41_hi_fr ctol_fr.
 Definition A41_q_clamp_lo := q_clamp_lo _ _ _ _ _ A41_admissible _ ctol_ok _ _ _ _ A41_lo_fr ctol_fr.
+
+(* samples taken on a whole simulated roboRIO *)
+Definition A02_rio_fin := rio_reads_fin _ _ _ _ _ A02_admissible _ ctol_ok.
+Definition A21_rio_fin := rio_reads_fin _ _ _ _ _ A21_admissible _ ctol_ok.
+Definition A41_rio_fin := rio_reads_fin _ _ _ _ _ A41_admissible _ ctol_ok.
+Definition A02_rio_x := rio_reads_x _ _ _ _ _ A02_admissible.
+Definition A21_rio_x := rio_reads_x _ _ _ _ _ A21_admissible.
+Definition A41_rio_x := rio_reads_x _ _ _ _ _ A41_admissible.
+
+(* non-vacuity: 1 V on the pin reads the coefficient on every roboRIO *)
+Lemma A21_rio_at_1V u5 u3 u6 vb a5 a3 a6 ax :
+  rio_distance_opt A21_c A21_e A21_lo A21_hi floor_volts
+    {| pin := Fin 1; user5V := u5; user3V3 := u3; user6V := u6; vin := vb;
+       active5V := a5; active3V3 := a3; active6V := a6; aux := ax |} = Some 26.449.
+Proof.
+  rewrite (rio_total _ _ _ _ _ A21_admissible). cbn [pin reading_x].
+  f_equal. exact A21_at_1V.
+Qed.
